@@ -1,8 +1,9 @@
 import Mfi.Driver.FxD
 import Mfi.Driver.PanicD
+import Mfi.Driver.InterestD
 open Mfi.Driver
 
-def handlers : List (String → List Int → Option String) := [fxOp, panicOp]
+def handlers : List (String → List Int → Option String) := [fxOp, panicOp, irOp]
 
 def stepLine (line : String) : String :=
   match line.trimAscii.toString.splitOn " " with
